@@ -29,7 +29,10 @@ class Model:
         # local closures are inlined (they read the loop's state variables); methods keep their identity: the
         # diagnostics funnel and the block API are recognised by name
         local_defs = [n.name for n in self.f.node.body if isinstance(n, ast.FunctionDef)]
-        fn, _inl = normalize.inline_helpers(self.f, only=local_defs)
+        # ... and a private generator that only prepares the lines of the loop is fused into it
+        gens = [n.iter.func.attr for n in self.f.node.body if isinstance(n, ast.For) and isinstance(n.iter, ast.Call) and isinstance(n.iter.func, ast.Attribute)
+                and isinstance(n.iter.func.value, ast.Name) and n.iter.func.value.id in ('self', 'cls') and n.iter.func.attr.startswith('_')]
+        fn, _inl = normalize.inline_helpers(self.f, only=local_defs + gens)
         fn = normalize.expand_quantifiers(fn, self.mod)
         set_parents(fn)
         self.fnode = fn
@@ -43,6 +46,14 @@ class Model:
             raise AnalysisError('%s: expected one line loop' % self.f.site)
         self.loop = loops[0]
         self.linevar = norm(self.loop.target)
+        # the name under which the line is matched (the loop target, or the local the prepared line is bound to)
+        seen_args = {}
+        for n in walk_no_nested(self.loop):
+            if isinstance(n, ast.Call) and isinstance(n.func, ast.Attribute) and n.func.attr == 'match' and isinstance(n.func.value, ast.Name) \
+                    and len(n.args) == 1 and isinstance(n.args[0], ast.Name):
+                seen_args[n.args[0].id] = seen_args.get(n.args[0].id, 0) + 1
+        if seen_args and self.linevar not in seen_args:
+            self.linevar = max(seen_args, key=seen_args.get)
         self.post = fn.body[fn.body.index(self.loop) + 1:]
         init = {}
         for s in fn.body[:fn.body.index(self.loop)]:
@@ -72,8 +83,24 @@ class Model:
         return self._re[name]
 
     # -- conditions: returns [(truth, line language)]
+    def _subst(self, t, binds):
+        """locals bound to group reads of a match are replaced by those reads"""
+        if not binds or not any(isinstance(n, ast.Name) and n.id in binds for n in ast.walk(t)):
+            return t
+        from ..core import clone
+
+        class S(ast.NodeTransformer):
+            def visit_Name(self, n):
+                if isinstance(n.ctx, ast.Load) and n.id in binds:
+                    return ast.copy_location(clone(binds[n.id]), n)
+                return n
+        r = S().visit(clone(t))
+        ast.fix_missing_locations(r)
+        return r
+
     def cond(self, t, st):
         L = st['L']
+        t = self._subst(t, st.get('binds'))
         if isinstance(t, ast.BoolOp):
             isand = isinstance(t.op, ast.And)
             res = []
@@ -116,8 +143,8 @@ class Model:
                     res = st['old'] is None
                     return [(res if isinstance(op, ast.Is) else not res, L)]
             # state comparisons
-            if isinstance(left, ast.Name) and left.id in ('state', 'old_state'):
-                cur = st['state'] if left.id == 'state' else st['old']
+            if isinstance(left, ast.Name) and (left.id in ('state', 'old_state') or left.id in st.get('vars', {})):
+                cur = st['state'] if left.id == 'state' else st['old'] if left.id == 'old_state' else st['vars'][left.id]
 
                 def val(n):
                     if isinstance(n, ast.Name) and n.id in self.consts:
@@ -206,6 +233,31 @@ class Model:
             else:
                 raise Abort('state assigned a non-constant: ' + norm(s))
             return [(st, None)]
+        if isinstance(s, ast.Assign) and len(s.targets) == 1 and isinstance(s.targets[0], ast.Name) and s.targets[0].id not in ('state', 'old_state') \
+                and isinstance(s.value, (ast.Name, ast.IfExp)) \
+                and all((isinstance(n, ast.Name) and (n.id in self.consts or n.id in ('state', 'old_state') or n.id in st.get('vars', {})))
+                        or not isinstance(n, ast.Name) for n in ast.walk(s.value)) \
+                and any(isinstance(n, ast.Name) and n.id in ('state', 'old_state') for n in ast.walk(s.value)):
+            # a local derived from the state variables (e.g. "the state at the last block"): evaluated now
+            def sval(e, st_):
+                if isinstance(e, ast.Name):
+                    if e.id == 'state':
+                        return [(st_['state'], st_)]
+                    if e.id == 'old_state':
+                        return [(st_['old'], st_)]
+                    if e.id in st_.get('vars', {}):
+                        return [(st_['vars'][e.id], st_)]
+                    return [(e.id, st_)]
+                out_ = []
+                for truth, lang in self.cond(e.test, st_):
+                    out_ += sval(e.body if truth else e.orelse, dict(st_, L=lang))
+                return out_
+            res = []
+            for v_, st_ in sval(s.value, st):
+                st2 = dict(st_, effects=list(st_['effects']), vars=dict(st_.get('vars', {})))
+                st2['vars'][s.targets[0].id] = v_
+                res.append((st2, None))
+            return res
         if isinstance(s, ast.Assign) and len(s.targets) == 1 and isinstance(s.targets[0], ast.Name) \
                 and (isinstance(s.value, (ast.Compare, ast.BoolOp)) or (isinstance(s.value, ast.UnaryOp) and isinstance(s.value.op, ast.Not))
                      or (isinstance(s.value, ast.Constant) and isinstance(s.value.value, bool))):
@@ -217,6 +269,27 @@ class Model:
                 st2['flags'][s.targets[0].id] = truth
                 out.append((st2, None))
             return out
+        if isinstance(s, ast.Assign) and len(s.targets) == 1 and isinstance(s.value, ast.Call) and isinstance(s.value.func, ast.Attribute) \
+                and s.value.func.attr in ('group', 'groups') and isinstance(s.value.func.value, ast.Name) and s.value.func.value.id in self.matchvars:
+            # name(s) bound to group reads: later tests on them are tests on the groups
+            tgt, call = s.targets[0], s.value
+            mv = call.func.value
+
+            def grp(k):
+                return ast.Call(func=ast.Attribute(value=ast.Name(id=mv.id, ctx=ast.Load()), attr='group', ctx=ast.Load()), args=[ast.Constant(value=k)], keywords=[])
+            keys = None
+            if call.func.attr == 'group' and all(isinstance(a, ast.Constant) for a in call.args):
+                keys = [a.value for a in call.args]
+            elif call.func.attr == 'groups' and not call.args and isinstance(tgt, (ast.Tuple, ast.List)):
+                keys = list(range(1, len(tgt.elts) + 1))
+            if keys is not None:
+                st['binds'] = dict(st.get('binds') or {})
+                if isinstance(tgt, ast.Name) and len(keys) == 1:
+                    st['binds'][tgt.id] = grp(keys[0])
+                elif isinstance(tgt, (ast.Tuple, ast.List)) and len(tgt.elts) == len(keys):
+                    for e_, k_ in zip(tgt.elts, keys):
+                        if isinstance(e_, ast.Name):
+                            st['binds'][e_.id] = grp(k_)
         if isinstance(s, ast.Continue):
             return [(st, 'continue')]
         if isinstance(s, ast.Return):
